@@ -437,6 +437,8 @@ class Ops:
                 return npmodel.elementwise(self, ast.Mult(), a, -1.0)
             if t is ast.UAdd:
                 return a
+            if t is ast.Invert and a.dtype == "bool":
+                return npmodel.mk(npmodel._map(a.data, lambda x: self.wrap_bool(self.not_(self.truth(x)))), "bool")
         k = num_kind(a)
         if k:
             z = to_z3(a, k)
